@@ -163,6 +163,11 @@ Next ==
             /\ Flag(Reopen(e))
             /\ db' = ToSet(e.snap) /\ rec' = e.sizeRec /\ radius' = e.radius
             /\ UNCHANGED <<node, cap, everPut, bigSeen>>
+       [] e.ev = "g.step" ->     \* a process of a gated run is about to pass a gate; at the gate before the item is committed the
+                                 \* admission rule must hold for the radius current THEN (the check and the insertion are one
+                                 \* critical section: a radius lowered by another put's prune in between would be missed)
+            /\ Flag([ justified |-> (e.point = "put.commit" /\ e.judge) => BELess(Num(e.d), e.radius) ])
+            /\ UNCHANGED <<node, cap, db, rec, radius, everPut, bigSeen>>
        [] e.ev = "bulk" ->
             /\ Flag(Bulk(e))
             /\ UNCHANGED <<node, cap, db, rec, radius, everPut, bigSeen>>
